@@ -2889,7 +2889,11 @@ def h_abs(ev, args, kwargs, fr, node):
 
 
 def round_term(e):
-    """round-to-nearest as a term: floor(x + 1/2) (ties-to-even is not modelled)."""
+    """round-to-nearest as a term.  A concrete rational is rounded exactly as Python's round / np.round do (ties to even:
+    round(2.5) == 2); a symbolic argument becomes floor(x + 1/2), which differs from that on exact half-integers only."""
+    if e.is_Rational:
+        from fractions import Fraction
+        return sp.Integer(round(Fraction(int(e.p), int(e.q))))
     a = e + sp.Rational(1, 2)
     return sp.floor(a) if a.is_number else sp.floor(a, evaluate=False)
 
@@ -2917,9 +2921,15 @@ def h_iscomplexobj(ev, args, kwargs, fr, node):
     if isinstance(dt, ExtV):
         if "complex" in dt.dotted:
             return BoolV(True)
-        if "float" in dt.dotted or "int" in dt.dotted:
+        if "float" in dt.dotted or "int" in dt.dotted or "bool" in dt.dotted:
             return BoolV(False)
-    return CondV(sp.Ne(sp.Function("IsComplex")(x.expr if isinstance(x, Num) else sp.Symbol("stack")), 0))
+    if isinstance(x, NdArr):
+        if all(isinstance(e, Num) and e.expr.is_real for e in x.items) and x.items:
+            return BoolV(False)
+        ev.unsupported("np.iscomplexobj of an explicit array of undetermined kind", node, fr)
+    if not isinstance(x, Num):
+        ev.unsupported(f"np.iscomplexobj({x!r})", node, fr)
+    return CondV(sp.Ne(sp.Function("IsComplex")(x.expr), 0))
 
 
 def h_delayed(ev, args, kwargs, fr, node):
